@@ -1,4 +1,5 @@
 import Retro.Drv.RasterCommon
+import Retro.Model.Poison
 
 namespace Retro.Drv.C05
 open Retro Retro.Raster Retro.Drv Retro.Drv.RasterCommon
@@ -93,6 +94,16 @@ def handle (case impl : List String) : Verdict :=
           | none => v
         -- correspondence: model fragments at the pixels both sides produce
         let model := triFill v0 v1 v2
+        -- The SAME model run under the poison interpretation (`Model/Poison.lean`: a division by zero
+        -- poisons, poison propagates) on the same finite input. `Props/C05/Poison.lean` proves that this run
+        -- is the lift of the Rat run for every input (`trifill_poison_free`) and, for positive reciprocal
+        -- depths, that no fragment after z_div is poisoned (`trifill_frags_finite`); here the compiled
+        -- definitions are executed side by side so that the theorem's subject and the driver's model are
+        -- visibly the same functions.
+        let pModel := triFill (Poison.liftL v0) (Poison.liftL v1) (Poison.liftL v2)
+        let poisoned := pModel.any fun s => s.anyBad || s.frags.any fun f => Poison.anyBad (zdiv f)
+        let v := v.addTag (if poisoned then "poisoned" else "poison-free")
+        let v := v.withDiff (a2 != 0 && pModel != model.map Scanline.lift) "poison-run differs from rat-run"
         let mRows := modelRows model
         let iRows := rowsF.map (·.1)
         let (firstDiff, bandDiffs) := coverageDiff (1/1000) p0 p1 p2 mRows iRows
